@@ -8,6 +8,7 @@ Model: `PyPred/Model/Dot.lean` (`render` = `to_value`, `cluster` = `render`, `to
 also all classes but the first).
 -/
 import PyPred.Lemmas.Dot
+import PyPred.Lemmas.ClosureDot
 
 namespace PyPred
 namespace Dot
@@ -333,11 +334,9 @@ theorem C17_toDot_total (cfg : Cfg) (fnc : Nat → Int → Bool) (fuel : Nat) (d
   exact ⟨⟨g.nodes, g.edges ++ refEdges bound p [p] g⟩, by simp [toDot, cluster, hr]⟩
 
 /-- With `show_optimized`: rendered whenever `optimize p` is again built from
-supported kinds.  (The full statement — `supported DCfg.fixed p` implies
-`supported DCfg.fixed (optimize p)`, i.e. the optimizer only produces kinds `to_dot`
-lists once `IsNotNone/IsEmpty/IsNotEmpty` have arms — needs an induction over every
-rule of the optimizer model and is not proved; the correspondence check exercises
-it on every case with `show_optimized` on.) -/
+supported kinds.  (For the repaired code the last hypothesis is a theorem, `C17_optimize_supported`,
+and the full statement is `C17_toDot_optimized_total` below; for the pinned variant
+it is false, see the example.) -/
 theorem C17_toDot_optimized_total_partial (cfg : Cfg) (fnc : Nat → Int → Bool) (fuel : Nat) (dc : DCfg)
     (bound : List Int) (p o : Pred Int) (hs : supported dc p = true) (ho : optimize cfg fnc fuel p = some o)
     (hso : supported dc o = true) : ∃ g1 g2, toDot cfg fnc fuel dc bound true p = .ok [g1, g2] := by
@@ -345,6 +344,21 @@ theorem C17_toDot_optimized_total_partial (cfg : Cfg) (fnc : Nat → Int → Boo
   obtain ⟨g2, k2, hr2⟩ := (C17_supported_iff dc k' o).2 hso
   exact ⟨⟨g.nodes, g.edges ++ refEdges bound p [p] g⟩, ⟨g2.nodes, g2.edges ++ refEdges bound p [o, p] g2⟩,
     by simp [toDot, cluster, hr, ho, hr2]⟩
+
+/-- The optimizer maps trees built from the kinds `to_dot` lists (after the repair
+that gave `IsNotNone/IsEmpty/IsNotEmpty` arms) to such trees — every rule, every
+configuration: instance of the generic closure theorem `optimizeT_closed`. -/
+theorem C17_optimize_supported (cfg : Cfg) (fnc : Nat → Int → Bool) (fuel : Nat) (p o : Pred Int)
+    (hs : supported DCfg.fixed p = true) (ho : optimize cfg fnc fuel p = some o) : supported DCfg.fixed o = true :=
+  supported_optimize cfg fnc fuel ho hs
+
+/-- With `show_optimized`, full statement: every predicate built from the supported
+kinds is rendered as two clusters (whenever `optimize` answers at all, which is
+C12's business). -/
+theorem C17_toDot_optimized_total (cfg : Cfg) (fnc : Nat → Int → Bool) (fuel : Nat)
+    (bound : List Int) (p o : Pred Int) (hs : supported DCfg.fixed p = true) (ho : optimize cfg fnc fuel p = some o) :
+    ∃ g1 g2, toDot cfg fnc fuel DCfg.fixed bound true p = .ok [g1, g2] :=
+  C17_toDot_optimized_total_partial cfg fnc fuel DCfg.fixed bound p o hs ho (C17_optimize_supported cfg fnc fuel p o hs ho)
 
 /-- Pinned tree (no arms for the three kinds): `~is_none_p` is built from supported
 kinds, `optimize` turns it into `is_not_none_p`, and `to_dot(…, show_optimized=True)`
